@@ -714,6 +714,10 @@ func (h *soloHist) opMisbehaviour(seq, ts uint64, div string, invalid bool) {
 		s2.Signature = sumlessSigData(r, h.cdc)
 		note = "second-signature-sumless"
 	}
+	if invalid && note == "first-signature-corrupt" && r.Bool() {
+		s1.Signature = nil
+		note = "first-signature-empty"
+	}
 	switch note {
 	case "identical-signatures":
 		s2 = &solomachine.SignatureAndData{Signature: s1.Signature, Path: p2, Data: d2, Timestamp: t2}
@@ -797,7 +801,7 @@ func famSolo(e *env) {
 	ck := e.chain.App.GetIBCKeeper().ClientKeeper
 
 	// the protobuf encoding the signatures are made over
-	n := hx.N(200, 5000)
+	n := hx.N(200, 1500)
 	k := newSigner(r, 1)
 	for i := 0; i < n; i++ {
 		f := fields{seq: r.U64B(), ts: r.U64B(), div: r.Pick([]string{"", "d", "diversifier", "\x08\x10"}), path: r.Bytes(r.Intn(24)), data: r.Bytes(r.Intn(40))}
@@ -833,7 +837,7 @@ func famSolo(e *env) {
 	}
 	_ = k
 
-	m := hx.N(192, 6000)
+	m := hx.N(192, 1500)
 	for i := 0; i < m; i++ {
 		ctx, _ := e.ctx.CacheContext()
 		h := &soloHist{e: e, cdc: cdc, ck: ck, ctx: ctx, sigIDs: map[string]string{}, sigTab: map[string][2]string{}}
